@@ -3,7 +3,7 @@ import MythVerif.Proofs.WsQueueTsoTac
 namespace MythVerif.WsqTso
 open MythVerif.Wsq
 
-set_option maxHeartbeats 4000000 in
+set_option maxHeartbeats 1000000 in
 theorem t_tk2 (s s' : St) (p : Pid) (b) : Inv s → s.tpc p = .tk2 b → stepT s p = some s' → Inv s' := by
   intro h heq hs
   have hb := h.tbufE p (by simp [heq, mayBuf])
@@ -12,13 +12,13 @@ theorem t_tk2 (s s' : St) (p : Pid) (b) : Inv s → s.tpc p = .tk2 b → stepT s
   have hcar := h.carryC
   have hpof := h.pof
   have htk2 := h.tk2 p b heq
-  cases h
   simp only [stepT, heq, hb, viewTop_nil] at hs
   split at hs
   · split at hs
     · rename_i x A' hA
       simp at hs; subst hs
       simp only [ownerLocked, carry, resetting, ownerFlight] at *
+      tso_coreT h [tk2]
       constructor
       all_goals (try simp only [ownerLocked, carry, resetting, ownerFlight, upd_apply, applySto])
       case carryC =>
@@ -33,12 +33,10 @@ theorem t_tk2 (s s' : St) (p : Pid) (b) : Inv s → s.tpc p = .tk2 b → stepT s
         have h1 := hmwin (k + 1) (by simp [hA]; omega) (hk2.elim (fun h => Or.inl (by omega)) Or.inr)
         simp [hA] at h1
         rw [← h1]; congr 1; omega
-      tso_rest
+      tso_goalsT h p
     · simp at hs; subst hs
-      simp only [ownerLocked, carry, resetting, ownerFlight] at *
-      tso_finish
+      tso_fastT h p [tk2]
   · simp at hs; subst hs
-    simp only [ownerLocked, carry, resetting, ownerFlight] at *
-    tso_finish
+    tso_fastT h p [tk2]
 
 end MythVerif.WsqTso
